@@ -423,6 +423,34 @@ def proof_status(b, prop_v):
     return ps
 
 
+def coqchk_once(timeout=3600):
+    """thorough tier: re-check every compiled .vo of the development (and everything it depends on)
+    with the independent checker coqchk, once per state of coq/theories; returns the report text
+    (axioms as coqchk lists them).  Cached on disk by content hash."""
+    stamp = tree_hash(THEORIES, (".v",))
+    cf = os.path.join(CACHE, "coqchk-%s.txt" % stamp[:16])
+    if os.path.exists(cf):
+        return open(cf).read()
+    mods = []
+    for d, _, files in os.walk(THEORIES):
+        for fn in sorted(files):
+            if fn.endswith(".vo"):
+                rel = os.path.relpath(os.path.join(d, fn), THEORIES)[:-3]
+                if rel.startswith("diag"):
+                    continue
+                mods.append("Grits." + rel.replace(os.sep, "."))
+    with Lock("coqchk.lock"):
+        if os.path.exists(cf):
+            return open(cf).read()
+        t0 = time.time()
+        rc, out, err = run(["coqchk", "-silent", "-o", "-Q", THEORIES, "Grits"] + sorted(mods), cwd=COQ, timeout=timeout)
+        txt = "coqchk rc=%d in %.0fs over %d modules\n%s\n%s" % (rc, time.time() - t0, len(mods), out[-6000:], err[-2000:])
+        if rc in (0,):
+            with open(cf, "w") as f:
+                f.write(txt)
+        return txt
+
+
 # ----------------------------------------------------------------------------------------
 # results
 # ----------------------------------------------------------------------------------------
